@@ -19,6 +19,7 @@
   Go type produced by `Make` (reflection).
 -/
 import RapidModel.Generated.Consts
+import RapidModel.Generated.CallOrders
 import RapidProofs.Contracts
 import RapidProofs.ContractsGen
 import RapidProofs.ContractsFloat
@@ -445,6 +446,34 @@ example : ((repeatLoop ⟨2, 5, 4503599627370496, "x"⟩ (fun acc => .draw 8 fun
     (fun a => .ret a) 9 {} .nil).run (.buf [0, 7, 0, 9, 0]) TS.fresh).res.toOption = some (.cons (.int 9) (.cons (.int 7) .nil)) := by decide +kernel
 
 /-! ### facts re-read from /repo's source on every run -/
+
+/-- the loop bodies that the collection, map and string generators put around `repeat.more` / `repeat.reject` (re-read from
+    /repo on every run, statement by statement): each is the `repeatWhile` of `source_repeat_loop` — `for repeat.more(t.s) {
+    element; if refused { repeat.reject() } else { keep it } }` from `newRepeat(min, max, -1, label)` on — with the element
+    program and the refusal test that the model's `Gen.body` uses for it (a key seen before; a key already in the map; a rune
+    that is not encodable or does not fit into `maxLen` bytes).  The set of keys seen is a local of the call (S97/S164 moved
+    it onto the generator). -/
+theorem slice_loop_source : Rapid.Generated.body_sliceGen_value =
+    ["{", "repeat := newRepeat(g.minLen, g.maxLen, -1, g.elem.String())", "var seen map[K]struct{}",
+     "if g.keyFn != nil {", "seen = make(map[K]struct{}, repeat.avg())", "}", "sl := make([]E, 0, repeat.avg())",
+     "for repeat.more(t.s) {", "e := g.elem.value(t)", "if g.keyFn == nil {", "sl = append(sl, e)", "} else {",
+     "k := g.keyFn(e)", "if _, ok := seen[k]; ok {", "repeat.reject()", "} else {", "seen[k] = struct{}{}",
+     "sl = append(sl, e)", "}", "}", "}", "return sl", "}"] := by decide
+
+theorem map_loop_source : Rapid.Generated.body_mapGen_value =
+    ["{", "label := g.val.String()", "if g.key != nil {", "label = g.key.String() + \",\" + label", "}",
+     "repeat := newRepeat(g.minLen, g.maxLen, -1, label)", "m := make(map[K]V, repeat.avg())",
+     "for repeat.more(t.s) {", "var k K", "var v V", "if g.key != nil {", "k = g.key.value(t)", "v = g.val.value(t)",
+     "} else {", "v = g.val.value(t)", "k = g.keyFn(v)", "}", "if _, ok := m[k]; ok {", "repeat.reject()",
+     "} else {", "m[k] = v", "}", "}", "return m", "}"] := by decide
+
+theorem string_loop_source : Rapid.Generated.body_stringGen_value =
+    ["{", "repeat := newRepeat(g.minRunes, g.maxRunes, -1, g.elem.String())", "var b strings.Builder",
+     "b.Grow(repeat.avg())", "maxLen := g.maxLen", "if maxLen < 0 {", "maxLen = math.MaxInt", "}",
+     "for repeat.more(t.s) {", "r := g.elem.value(t)", "n := utf8.RuneLen(r)", "if n < 0 || b.Len()+n > maxLen {",
+     "repeat.reject()", "} else {", "b.WriteRune(r)", "}", "}", "return b.String()", "}"] := by decide
+
+
 
 theorem small_source : Rapid.Generated.c_small = small.toNat := by decide
 
